@@ -39,7 +39,7 @@ CASE_TIMEOUT = 4.0              # seconds per value (all paths); a legitimate va
 ATTEMPTS = 3                    # a timeout is a verdict only if the value times out on every attempt (wall-clock timers
                                 # fire spuriously when the whole VM stalls: observed, 28 values at once, none reproducible)
 MAX_HANGS = 10                  # confirmed hangs per run after which the remaining values are skipped (and reported)
-CAP_PER_ITEM = 300              # violations kept per work item (all are counted); unchanged tree stays far below
+CAP_PER_ITEM = 200             # violations kept per work item (all are counted); unchanged tree stays far below
 CAP_TOTAL = 6000                # violations kept per run after sorting by key (deterministic)
 I64 = (-2 ** 63, 2 ** 63 - 1)
 
@@ -650,9 +650,19 @@ def selftest():
         assert all(depth(e) <= 1 for e in lv['L2'][0]) and max(depth(e) for e in lv['L3'][0]) == 2
     # the comparison can fail: different kinds / order-sensitive text
     assert cn(build(C('a'))) != cn(build(S('a'))) and cn(1) != cn(1.0) and cn(KGSym('a')) != cn('a')
+    # the channels: what `.w` puts on the StringIO To-Channel is exactly what writer.kg_write returns (whatever that is on
+    # the tree under test), and `.r` consumes the StringIO From-Channel.  No expectation about the text itself here.
+    from klongpy.writer import kg_write
     env = Env()
-    assert env.write(build(S('a"b'))) == '"a""b"' and env.read_r('[1 "x"]').tolist() == [1, 'x']
-    return 'spec/builder/key examples ok; channels capture .w and feed .r'
+    for s in (I(-3), S('a"b'), C('"'), L(I(1), S('x'), L(R(0.5)))):
+        v = build(s)
+        assert env.write(v) == kg_write(v, env.k._backend), skey(s)
+    try:
+        env.read_r('7 8')
+    except Exception:               # noqa: BLE001 - the reader's behaviour is judged by the check, not here
+        pass
+    assert env.inp.tell() > 0 or env.ic.at_eof
+    return 'spec/builder/key examples ok; .w on the StringIO channel == kg_write; .r consumes the StringIO channel'
 
 
 def run(cfg):
@@ -662,12 +672,13 @@ def run(cfg):
     hangs = multiprocessing.get_context('fork').Value('i', 0)       # shared with the forked workers
     work = make_worker(levels, hangs)
     total = {}
-    hv, hn = [], []
+    hv, hn, viol = [], [], []
     for part in runner.pmap(work, items, cfg, chunk=1):
         hv.extend(part.pop('hv'))
         hn.extend(part.pop('hn'))
+        viol.extend(part.pop('viol'))       # not through merge_counts: its list cap depends on completion order
         runner.merge_counts(total, part)
-    viol = sorted(total.get('viol', []), key=lambda v: (v['key'], v['observed']))
+    viol.sort(key=lambda v: (v['key'], v['observed']))
     for v in viol[:CAP_TOTAL]:
         rep.violation(v['key'], v['observed'], v['expected'], case=v['case'], snippet=v['snippet'], group=v['group'])
     dv = int(np.unique(np.frombuffer(b''.join(hv), dtype='<u8')).size)
